@@ -12,3 +12,5 @@ def run(ctx):
     # binding of 'field changed' to 'any bit of the field changed': all bit flips of honest hellos
     n = 12 if ctx.quick else 150
     echcommon.run_family(ctx, ["MCEchHello_c03.cfg"], mode="bits", select=lambda c: c["res"]["kind"] == "accept", sample=n, what="C02 bit-flip")
+    # a payload sealed - correctly - with a suite the held config does not list must not be accepted either
+    echcommon.run_family(ctx, ["MCEchHello_c09q.cfg"], select=lambda c: c["op"] == "unlistedSuite", sample=300 if ctx.quick else None, what="C02 unlisted suite")
